@@ -317,5 +317,138 @@ def utilcheck(prop, path, outdir, V):
     return '\n'.join(out) + ('\n' if out else ''), n
 
 
+DOC_CLASSES = '{"parse_ok", "parse_fail", "print", "create_edit", "compare", "duplicate", "minify", "patch_utils", "delete"}'
+EXCLUDED_FUNCS = {'cJSON_GetErrorPtr', 'cJSON_InitHooks', 'cJSON_Version'}
+KNOWN_OBJECTS = {'global_error', 'global_error.0', 'global_error.1', 'global_hooks', 'cJSON_Version.version'}
+
+
+def run_c20(prop, run, outdir, bins, seed, V, REPO):
+    """C20: (A) TLC on Threads.tla incl. negative controls, (B1) footprint table vs object code, (B2) ThreadSanitizer runs"""
+    import subprocess, shutil, json, re, time
+    t0 = time.time()
+    out, res = [], {'name': run['name'], 'stdout': '', 'stderr': '', 'rc': 0, 'states': 0, 'transitions': 0, 'stats': {}, 'samples': [], 'tlc_error': None}
+
+    def tlc(name, nthreads, maxcalls, admitted, emit):
+        cfg = os.path.join(outdir, name + '.cfg')
+        open(cfg, 'w').write('CONSTANTS\n NThreads = %d\n MaxCalls = %d\n Admitted = %s\n Emit = %s\nINIT Init\nNEXT Next\nINVARIANTS OnlyErrorRaces NonInterference\nCHECK_DEADLOCK FALSE\n'
+                             % (nthreads, maxcalls, admitted, 'TRUE' if emit else 'FALSE'))
+        md = os.path.join(outdir, 'md-' + name)
+        r = subprocess.run('cd %s/spec && timeout 900 tlc -workers 16 -metadir %s -config %s Threads.tla 2>&1' % (V, md, cfg), shell=True, capture_output=True, text=True)
+        shutil.rmtree(md, ignore_errors=True)
+        open(os.path.join(outdir, name + '.tlc.out'), 'w').write(r.stdout)
+        return r.stdout
+
+    # (A) all interleavings of the documented call classes
+    table = None
+    for name, nt, mc in run['models']:
+        o = tlc(name, nt, mc, DOC_CLASSES, True)
+        m = None
+        for m in re.finditer(r'(\d+) states generated, (\d+) distinct states found', o):
+            pass
+        if 'No error has been found' not in o or not m:
+            res['tlc_error'] = '%s: %s' % (name, '; '.join(l for l in o.splitlines() if l.startswith('Error'))[:300] or 'TLC did not complete')
+            return res
+        res['transitions'] += int(m.group(1)); res['states'] += int(m.group(2))
+        for l in o.splitlines():
+            if l.startswith('"{') and 'table' in l:
+                table = json.loads(json.loads(l))
+    if table is None:
+        res['tlc_error'] = 'footprint table not emitted'
+        return res
+    # negative controls: admitting an excluded call must break the invariants (otherwise the model is vacuous)
+    for name, adm in (('neg_get_error', '{"parse_ok", "get_error"}'), ('neg_init_hooks', '{"print", "init_hooks"}'), ('neg_version', '{"version"}')):
+        o = tlc(name, 2, 2, adm, False)
+        if 'is violated' not in o:
+            res['tlc_error'] = 'negative control %s did not produce a counterexample' % name
+            return res
+    # (B1) the table against the object code
+    fp = subprocess.run([os.path.join(V, 'tools', 'footprint.py')], capture_output=True, text=True, env=dict(os.environ, VERIF_REPO=REPO))
+    if fp.returncode != 0:
+        res['tlc_error'] = 'footprint extraction failed: ' + fp.stderr[-300:]
+        return res
+    ext = json.loads(fp.stdout)
+    open(os.path.join(outdir, 'footprint.json'), 'w').write(fp.stdout)
+    nviol, checked, drift = 0, 0, 0
+    def violation(msg, detail):
+        nonlocal nviol
+        nviol += 1
+        rp = os.path.join(outdir, 'C20-static-%d.case' % nviol)
+        open(rp, 'w').write('# %s\n%s\n' % (msg, json.dumps(detail)))
+        out.append('VIOLATION property=C20 replay=%s :: %s' % (rp, msg))
+    allowed_w = lambda f, sym: sym.startswith('global_error') and 'Parse' in f
+    for f, accs in sorted(ext['functions'].items()):
+        if f in EXCLUDED_FUNCS:
+            continue
+        checked += 1
+        for sym, kinds in accs.items():
+            if sym == 'global_hooks':
+                if set(kinds) - {'r'}:
+                    violation('%s stores to or exposes global_hooks (access kinds "%s"); only cJSON_InitHooks may write it' % (f, kinds), {f: accs})
+            elif sym.startswith('global_error'):
+                if 'r' in kinds or 'a' in kinds or ('w' in kinds and not allowed_w(f, sym)):
+                    violation('%s accesses the global error position with kinds "%s" (only parse entry points write it, only cJSON_GetErrorPtr reads it)' % (f, kinds), {f: accs})
+            elif set(kinds) & {'w', 'a'} or 'rw' in kinds:
+                violation('%s writes (or takes the address of) the writable static object %s, which is shared by all threads' % (f, sym), {f: accs, 'object': ext['inventory'].get(sym)})
+            else:
+                drift += 1
+    newobjs = sorted(set(ext['inventory']) - KNOWN_OBJECTS)
+    res['samples'] = ['writable static objects: %s' % sorted(ext['inventory']), 'cJSON_Parse: %s' % ext['functions'].get('cJSON_Parse'),
+                      'cJSON_Print: %s' % ext['functions'].get('cJSON_Print'), 'cJSONUtils_SortObject: %s' % ext['functions'].get('cJSONUtils_SortObject')]
+    # (B2) real schedules under ThreadSanitizer
+    drv = bins['tsan']
+    races_other, races_err, tsan_sets = 0, 0, 0
+    for k, (nt, sets, rounds) in enumerate(run['tsan']):
+        stats = os.path.join(outdir, 'tsan%d.stats.json' % k)
+        env = dict(os.environ, TSAN_OPTIONS='halt_on_error=0 exitcode=0 report_signal_unsafe=0')
+        r = subprocess.run('timeout 1200 %s threads --prop C20 --out %s --stats %s --samples %s --seed %d --threads %d --sets %d --rounds %d' %
+                           (drv, outdir, stats, os.path.join(outdir, 'tsan%d.samples' % k), seed + k, nt, sets, rounds), shell=True, capture_output=True, text=True, env=env)
+        for l in r.stdout.splitlines():
+            if l.startswith('VIOLATION'):
+                out.append(l)
+        try:
+            st = json.load(open(stats)); tsan_sets += st.get('cases', 0)
+        except (OSError, ValueError):
+            res['tlc_error'] = 'threads driver failed: rc=%s %s' % (r.returncode, r.stderr[-300:])
+            return res
+        try:
+            res['samples'] += open(os.path.join(outdir, 'tsan%d.samples' % k)).read().splitlines()[:2]
+        except OSError:
+            pass
+        reports = r.stderr.split('WARNING: ThreadSanitizer: ')[1:]
+        for rep in reports:
+            m = re.search(r"Location is global '([^']+)'", rep)
+            if m and m.group(1).startswith('global_error'):
+                races_err += 1
+            else:
+                races_other += 1
+                if races_other <= 3:
+                    nviol += 1
+                    rp = os.path.join(outdir, 'C20-tsan-%d.case' % nviol)
+                    open(rp, 'w').write(rep[:4000])
+                    loc = m.group(1) if m else (re.search(r'Location is ([^\n]+)', rep).group(1) if re.search(r'Location is ([^\n]+)', rep) else 'unknown location')
+                    out.append('VIOLATION property=C20 replay=%s :: ThreadSanitizer: unsynchronised conflicting accesses to %s (not the documented global error position)' % (rp, loc))
+    res['stats'] = {'cases': checked + tsan_sets, 'nontrivial': checked + tsan_sets, 'drift': drift, 'violations': len(out), 'public_functions_checked': checked,
+                    'new_writable_objects': newobjs, 'tsan_program_sets': tsan_sets, 'tsan_reports_on_global_error': races_err, 'tsan_reports_elsewhere': races_other}
+    res['stdout'] = '\n'.join(out) + ('\n' if out else '')
+    res['wall_s'] = round(time.time() - t0, 1)
+    return res
+
+
 def run_custom(kind, prop, run, outdir, bins, seed, V, REPO):
+    if kind == 'c20':
+        return run_c20(prop, run, outdir, bins, seed, V, REPO)
     raise SystemExit('check: unknown run kind %s' % kind)
+
+
+PLANS['C20'] = {
+    'quick': [{'name': 'threads', 'kind': 'c20', 'flavour': 'tsan', 'models': [('t2c2', 2, 2), ('t3c1', 3, 1)], 'tsan': [(4, 12, 60)]}],
+    'thorough': [{'name': 'threads', 'kind': 'c20', 'flavour': 'tsan', 'models': [('t2c2', 2, 2), ('t3c1', 3, 1), ('t3c2', 3, 2)], 'tsan': [(4, 40, 300), (8, 40, 200), (2, 40, 500)]}],
+    'rule': 'all interleavings of 2-3 threads x 1-2 calls over the nine documented call classes in Threads.tla (plus three negative controls that must fail); every public function of both translation units '
+            'checked against the footprint table by static extraction from the object code; seeded sets of per-thread call sequences run concurrently under ThreadSanitizer and compared with their solo results; '
+            'non-trivial = every public function / every program set',
+    'assumptions': ['stores through a pointer to a static object whose address is taken are not attributed statically (the only address-taken object is cJSON_Version.version, in an excluded call); ThreadSanitizer covers them dynamically',
+                    'thread-private trees and buffers cannot conflict and are not modelled', 'ThreadSanitizer samples real schedules; the exhaustive part is the interleaving model'],
+    'technique': 'TLC explores all interleavings of per-call global-access footprints (Threads.tla) with race and non-interference invariants and negative controls; the footprint table is bound to the object code by static extraction (writable-object inventory, loads/stores per public function closed over the call graph) and by ThreadSanitizer runs compared with solo results',
+    'level_text': 'Schedules are explored exhaustively on the model: every interleaving of the atomic global accesses of up to 3 threads, where the only admissible conflict is on the documented error position and every read a result can depend on returns the initial value. What makes the model speak about the code is the footprint table, extracted from the object files of the current tree for every public function; real multi-threaded runs under ThreadSanitizer add dynamic evidence.',
+    'level_note': 'model: 2-3 threads x 1-2 calls; static extraction classifies x86-64 loads/stores by operand position (clang -O1); TSan runs are a sample of schedules',
+}
